@@ -51,10 +51,10 @@ pub fn be_packet(datagram: &mut BytesMut, dcid_len: usize) -> Result<Packet, Err
         nom::Err::Error(e) => e,
         _ => unreachable!("parsing packet type never generates failure"),
     })?;
-    let (remain, header) = be_header(pkty, dcid_len, remain).map_err(|e| match e {
-        ne @ nom::Err::Incomplete(_) => Error::IncompleteHeader(pkty, ne.to_string()),
-        _ => unreachable!("parsing packet header never generates error or failure"),
-    })?;
+    // A truncated header is Incomplete; a malformed one (e.g. a long header announcing a
+    // connection id longer than 20 bytes) is an Error. Either way the datagram is dropped.
+    let (remain, header) = be_header(pkty, dcid_len, remain)
+        .map_err(|e| Error::IncompleteHeader(pkty, e.to_string()))?;
     match header {
         Header::VN(header) => {
             datagram.clear();
